@@ -100,11 +100,12 @@ var (
 )
 
 type progGen struct {
-	r      *RNG
-	labels []string
-	equs   []string
-	used   map[string]bool
-	bits32 bool
+	nonASCII bool // string literals may contain non-ASCII text (C10 pools only: C19 re-encodes files)
+	r        *RNG
+	labels   []string
+	equs     []string
+	used     map[string]bool
+	bits32   bool
 }
 
 func (g *progGen) newName() string {
@@ -295,11 +296,14 @@ func (g *progGen) stmt() string {
 		case 2:
 			return "\tMOV\t" + pick(r, regs32) + "," + pick(r, regs32)
 		case 3:
-			return "\tMOV\t" + g.mem() + "," + pick(r, regs16)
+			return "\tMOV\t" + g.mem() + "," + pick(r, [][]string{regs16, regs8, regs32, sregs}[r.Intn(4)])
 		case 4:
-			return "\tMOV\t" + pick(r, regs8) + "," + g.mem()
+			return "\tMOV\t" + pick(r, [][]string{regs16, regs8, regs32, sregs}[r.Intn(4)]) + "," + g.mem()
 		default:
-			return "\tMOV\t" + pick(r, sregs) + ",AX"
+			if r.Chance(1, 2) {
+				return "\tMOV\t" + pick(r, regs16) + "," + pick(r, sregs)
+			}
+			return "\tMOV\t" + pick(r, sregs) + "," + pick(r, regs16)
 		}
 	case 2: // MOV size [mem], imm
 		switch r.Intn(3) {
@@ -320,8 +324,18 @@ func (g *progGen) stmt() string {
 		default:
 			return "\t" + op + "\t" + pick(r, regs32) + "," + g.imm(32)
 		}
-	case 4: // arithmetic reg, reg
+	case 4: // arithmetic reg, reg / reg, mem / mem, reg / size mem, imm
 		op := pick(r, arith)
+		switch r.Intn(6) {
+		case 0:
+			return "\t" + op + "\t" + pick(r, regs16) + "," + g.mem()
+		case 1:
+			return "\t" + op + "\t" + g.mem() + "," + pick(r, regs16)
+		case 2:
+			return "\t" + op + "\t" + pick(r, []string{"BYTE", "WORD", "DWORD"}) + " " + g.mem() + "," + g.imm(8)
+		case 3:
+			return "\t" + op + "\t" + pick(r, regs8) + "," + pick(r, regs8)
+		}
 		if r.Chance(1, 2) {
 			return "\t" + op + "\t" + pick(r, regs16) + "," + pick(r, regs16)
 		}
@@ -334,6 +348,16 @@ func (g *progGen) stmt() string {
 	case 6:
 		return "\t" + pick(r, noparam)
 	case 7:
+		switch r.Intn(6) {
+		case 0:
+			return "\t" + pick(r, unary) + "\t" + pick(r, []string{"BYTE", "WORD", "DWORD"}) + " " + g.mem()
+		case 1:
+			return "\t" + pick(r, unary) + "\t" + pick(r, regs8)
+		case 2:
+			return "\t" + pick(r, shifts) + "\t" + pick(r, regs16) + ",CL"
+		case 3:
+			return "\t" + pick(r, []string{"MUL", "DIV", "IMUL", "IDIV"}) + "\t" + pick(r, regs16)
+		}
 		if r.Chance(1, 2) {
 			return "\t" + pick(r, unary) + "\t" + pick(r, regs16)
 		}
@@ -347,9 +371,12 @@ func (g *progGen) stmt() string {
 		case 2:
 			return "\tOUT\t" + g.imm(8) + ",AL"
 		case 3:
-			return "\tPUSH\t" + pick(r, regs16)
+			return "\tPUSH\t" + pick(r, [][]string{regs16, regs32, sregs}[r.Intn(3)])
 		case 4:
-			return "\tPOP\t" + pick(r, regs32)
+			if r.Chance(1, 4) {
+				return "\tPUSH\t" + g.imm(16)
+			}
+			return "\tPOP\t" + pick(r, [][]string{regs16, regs32, sregs}[r.Intn(3)])
 		default:
 			return "\tOUT\tDX,AX"
 		}
@@ -363,7 +390,11 @@ func (g *progGen) stmt() string {
 			}
 			return "\tDB\t" + strings.Join(xs, ", ")
 		case 1:
-			return "\tDB\t\"" + pick(r, []string{"hello", "HARIBOTEOS ", "load error", "ab", "x"}) + "\", 0x0a, 0"
+			strs := []string{"hello", "HARIBOTEOS ", "load error", "ab", "x"}
+			if g.nonASCII && r.Chance(1, 2) {
+				strs = []string{"こんにちは, world", "ロードエラー", "表示", "ｶﾀｶﾅ", "é", "日本語OS"}
+			}
+			return "\tDB\t\"" + pick(r, strs) + "\", 0x0a, 0"
 		case 2:
 			return "\tDW\t" + g.imm(16) + ", " + g.imm(16)
 		case 3:
@@ -436,7 +467,8 @@ type genOpts struct {
 	Ties         bool // several global names bound to the same address
 	Undefined    int  // GLOBAL names never defined
 	Extern       int
-	ErrRate      int // per mille of odd statements (already part of stmt mix); extra knob
+	ErrRate      int  // per mille of odd statements (already part of stmt mix); extra knob
+	NonASCII     bool // allow non-ASCII string literals
 }
 
 func drawGenOpts(r *RNG) genOpts {
@@ -462,7 +494,7 @@ func drawGenOpts(r *RNG) genOpts {
 
 // genBody makes the statement list (labels, EQUs, GLOBALs, statements) for given options.
 func genBody(r *RNG, o genOpts) (body []string, hasEqu, hasGlobal bool) {
-	g := &progGen{r: r, used: map[string]bool{}, bits32: o.Bits32}
+	g := &progGen{r: r, used: map[string]bool{}, bits32: o.Bits32, nonASCII: o.NonASCII}
 	var equNames []string
 	for i := 0; i < o.NEqu; i++ {
 		n := strings.ToUpper(g.newName())
@@ -577,8 +609,9 @@ func headerFor(o genOpts, r *RNG) []string {
 
 // genProgram draws one generated program; with twin=true it also returns its twin: the
 // same statement lines under a different mode/format/origin header.
-func genProgram(r *RNG, name string, twin bool) []*Program {
+func genProgram(r *RNG, name string, twin bool, nonASCII bool) []*Program {
 	o := drawGenOpts(r)
+	o.NonASCII = nonASCII && r.Chance(1, 3)
 	body, hasEqu, hasGlobal := genBody(r, o)
 	p := &Program{Name: name, Header: headerFor(o, r), Body: body, Origin: "gen"}
 	classify(p)
